@@ -66,6 +66,29 @@ func genQuoteStr(r *rand.Rand, n int, emit func(args ...string)) {
 	for i := 0; i < n/4; i++ {
 		emit(encStr(randQuoteContent(r)))
 	}
+	// values that look like something the library treats specially (timestamps, durations,
+	// numbers, booleans, regexes, placeholders, the redaction marker) with hostile characters
+	// after, before and inside them
+	shapes := []string{"2000-01-01", "2000-01-01T00:00:00Z", "2000-01-01 00:00:00", "2000-01-01T00:00:00.123456789Z", "1999-12-31", "0000-00-00", "10m", "1h30m", "1.5", "1e3", "true", "null", "/re/", "$p", "[REDACTED]", "now()", "-1"}
+	tails := []string{"'", "\\", "' OR 'a' = 'a", "'; DROP DATABASE x; --", "\\'", "\n", "\"", "'--", "/*", "\\\\", "''", "' "}
+	for _, sh := range shapes {
+		for _, t := range tails {
+			emit(encStr(sh + t))
+			emit(encStr(t + sh))
+		}
+	}
+	for i := 0; i < n/8; i++ {
+		sh := pick(r, shapes)
+		switch r.Intn(3) {
+		case 0:
+			emit(encStr(sh + randContent(r, true)))
+		case 1:
+			emit(encStr(randContent(r, true) + sh))
+		default:
+			k := r.Intn(len(sh) + 1)
+			emit(encStr(sh[:k] + pick(r, tails) + sh[k:]))
+		}
+	}
 }
 
 func genQuoteNeeds(r *rand.Rand, n int, emit func(args ...string)) {
@@ -260,6 +283,18 @@ func propQuoteIdent(args []string) string {
 		if allExpr && validShape {
 			return fmt.Sprintf("SELECT f FROM %s (QuoteIdent%q) does not parse: %v", q, segs, err)
 		}
+		if allExpr {
+			var want [3]string
+			switch len(segs) {
+			case 2:
+				want = [3]string{"", segs[0], segs[1]}
+			case 3:
+				want = [3]string{segs[0], segs[1], segs[2]}
+			default:
+				return ""
+			}
+			return quoteIdentAbsorbs(segs, q, want)
+		}
 		return ""
 	}
 	sel, ok1 := stmt.(*influxql.SelectStatement)
@@ -282,6 +317,34 @@ func propQuoteIdent(args []string) string {
 	}
 	if m.Database != want[0] || m.RetentionPolicy != want[1] || m.Name != want[2] || m.Regex != nil {
 		return fmt.Sprintf("QuoteIdent%q = %s parses as db=%q rp=%q name=%q", segs, q, m.Database, m.RetentionPolicy, m.Name)
+	}
+	return quoteIdentAbsorbs(segs, q, want)
+}
+
+// quoteIdentAbsorbs: whatever the shape of the name (also an empty first or last part), the quoted
+// name followed by an identifier-like clause yields a parse error or exactly that name and that
+// clause: it never takes the following word for a missing part.
+func quoteIdentAbsorbs(segs []string, q string, want [3]string) string {
+	for _, tail := range []string{" fill(none)", " tz('UTC')", " fill(none) LIMIT 3"} {
+		text := "SELECT f FROM " + q + tail
+		stmt, err := influxql.ParseStatement(text)
+		if err != nil {
+			continue
+		}
+		sel, ok := stmt.(*influxql.SelectStatement)
+		if !ok || len(sel.Sources) != 1 {
+			return fmt.Sprintf("%s (QuoteIdent%q) parses to %s", text, segs, stmt)
+		}
+		m, ok := sel.Sources[0].(*influxql.Measurement)
+		if !ok || m.Database != want[0] || m.RetentionPolicy != want[1] || m.Name != want[2] || m.Regex != nil {
+			return fmt.Sprintf("%s (QuoteIdent%q) parses with the source %s: the name absorbed or lost text", text, segs, sel.Sources[0])
+		}
+		if strings.Contains(tail, "fill") && sel.Fill != influxql.NoFill {
+			return fmt.Sprintf("%s (QuoteIdent%q) parses without its fill clause: %s", text, segs, stmt)
+		}
+		if strings.Contains(tail, "tz") && (sel.Location == nil || sel.Location.String() != "UTC") {
+			return fmt.Sprintf("%s (QuoteIdent%q) parses without its tz clause: %s", text, segs, stmt)
+		}
 	}
 	return ""
 }
